@@ -1690,12 +1690,18 @@ impl Algorithm {
             Some(label) if label.is_root() => {}
             _ => return None,
         }
-        match first.as_slice() {
-            b"hmac-sha1" => Some(Algorithm::Sha1),
-            b"hmac-sha256" => Some(Algorithm::Sha256),
-            b"hmac-sha384" => Some(Algorithm::Sha384),
-            b"hmac-sha512" => Some(Algorithm::Sha512),
-            _ => None,
+        // The algorithm is a domain name and thus compared ignoring case.
+        let first = first.as_slice();
+        if first.eq_ignore_ascii_case(b"hmac-sha1") {
+            Some(Algorithm::Sha1)
+        } else if first.eq_ignore_ascii_case(b"hmac-sha256") {
+            Some(Algorithm::Sha256)
+        } else if first.eq_ignore_ascii_case(b"hmac-sha384") {
+            Some(Algorithm::Sha384)
+        } else if first.eq_ignore_ascii_case(b"hmac-sha512") {
+            Some(Algorithm::Sha512)
+        } else {
+            None
         }
     }
 
